@@ -265,6 +265,32 @@ def ob_e2_pair(spec=None, s=None):
 ob_e2_pair.engine = "direct"
 
 
+def ob_corpus(spec=None, s=None):
+    """NOT a solver obligation: the skeleton strings of every thorough-tier E2 instance (escape sequences, their prefixes / suffixes,
+    sequence + suffix overlaps), bare and between two structural characters, pushed through the real functions and the real pyparsing
+    rule. It keeps the quick tier sensitive to changes whose symbolic instances are only affordable in the thorough tier."""
+    if s is not None:
+        return check(concrete_ok(s))
+    strings = []
+    for core in sequences() + [a + b for a, b in pairs()]:
+        for pre in ("", "~", "h", "-"):
+            for post in ("", "~", "/", "s"):
+                strings.append(pre + core + post)
+    bad = [t for t in strings if not concrete_ok(t)]
+    res = dict(paths=len(strings), reached=len(strings), decisions=1, z3_s=0.0, z3_queries=0, exhausted=True, unknown=0, tainted=0, realizations=0,
+               tags={"concrete_strings": len(strings)}, functions=["liquer/parser.py:encode_token", "liquer/parser.py:decode_token"],
+               twin=dict(verdict="refuted", witness={"s": strings[-1]}, replay=dict(ok=True, reached=True, exc=None)),
+               extra=dict(note="concrete corpus, not a solver verdict", strings=len(strings)))
+    if bad:
+        res.update(verdict="refuted", cex={"s": bad[0]}, message=["corpus string violates the property"])
+    else:
+        res["verdict"] = "decided"
+    return res
+
+
+ob_corpus.engine = "direct"
+
+
 # ---------------------------------------------------------------- E1: Unicode, list wrappers, encoders
 def _hx(d):
     return chr(48 + d) if d < 10 else chr(55 + d)
@@ -486,8 +512,10 @@ def obligations(tier):
     for i in (range(len(seqs)) if not q else [i for i, x in enumerate(seqs) if x in ("~", "-", "/", " ", "%41", "~X~", "~P", "~H", "~_", "~.", ":/", "%", "~E")]):
         obs.append(Ob("ob_e2_struct", dict(seq=i), timeout=280 if q else 1800,
                       bounds="E2: x + %r + y with |x|,|y|<=1 free ASCII" % seqs[i]))
+    obs.append(Ob("ob_corpus", {}, timeout=120,
+                  bounds="CONCRETE corpus (sampling, not a solver verdict): skeletons of all E2 instances incl. the sequence+suffix overlaps, in 16 contexts each"))
     prs = pairs()
-    for i in (range(len(prs)) if not q else [i for i, pr in enumerate(prs) if pr in (("http://", "ttps://"), ("https://", "ttp://"), ("file://", "ile://"))]):
+    for i in (range(len(prs)) if not q else []):       # CAP ~50: minutes per instance - thorough tier only
         obs.append(Ob("ob_e2_pair", dict(pair=i), timeout=280 if q else 3000,
                       bounds="E2: x + %r + %r + y (an escape sequence followed by a proper suffix of one) with |x|,|y|<=1 free ASCII" % prs[i]))
     obs.append(Ob("ob_unicode", dict(n=0, cls=None), timeout=60, per_path=30, bounds="E1: empty string"))
